@@ -731,6 +731,42 @@ def match_pattern(site, pats):
             st = stores_to(site)
             if st == {pt["stores_to"]}:
                 return pt
+        if "range_bounds" in pt:
+            # a str sliced with bounds that are all positions the scanner itself produced on that same string
+            if site.fn.path != pt.get("fn") or len(site.ops) < 2 or _sig(site.ops[0]) != pt.get("ops0"):
+                continue
+            rg = deep_strip(site.ops[1])
+            if rg[0] != "agg" or "range::Range" not in rg[1]:
+                continue
+
+            def alts(e):
+                e = deep_strip(e)
+                if e[0] == "phi":
+                    out = []
+                    for a in e[1]:
+                        out.extend(alts(a))
+                    return out
+                return [e]
+
+            def ok_bound(e):
+                if e == ("param", 2) and "arg2" in pt["range_bounds"]:
+                    return True
+                if e[0] == "call" and e[1] == "core::str::<impl str>::len" and _sig(e[2][0]) == pt.get("ops0") and "len" in pt["range_bounds"]:
+                    return True
+                if "peek-pos" in pt["range_bounds"]:
+                    x = e
+                    n = 0
+                    while x[0] == "field" and x[2] == "0":
+                        x = deep_strip(x[1])
+                        n += 1
+                    if n >= 1 and x[0] == "as" and x[2] == "Some":
+                        c = deep_strip(x[1])
+                        if c[0] == "call" and c[1].rsplit("::", 1)[-1] in ("peek", "next") and "Peekable" in c[1] or (c[0] == "call" and c[1].endswith("Iterator::next")):
+                            return True
+                return False
+            if all(ok_bound(a) for nm, v in rg[3] for a in alts(v)):
+                return pt
+            continue
         if "ops0" in pt:
             # an index into a named table with an index that is an item of an iterator (no arithmetic on it)
             if site.fn.path != pt.get("fn") or len(site.ops) < 2:
